@@ -361,7 +361,8 @@ func (s *Service) unblindProposal(ctx context.Context,
 	// semaphore to track if a signed block has been returned by any provider.
 	sem := semaphore.NewWeighted(1)
 
-	respCh := make(chan *api.VersionedSignedProposal, 1)
+	// Room for every provider's block, so that no provider is left blocked once we have returned.
+	respCh := make(chan *api.VersionedSignedProposal, len(providers))
 	for _, provider := range providers {
 		go func(ctx context.Context, provider builderclient.UnblindedProposalProvider, ch chan *api.VersionedSignedProposal) {
 			log := s.log.With().Str("provider", provider.Address()).Logger()
